@@ -97,11 +97,21 @@ def present(f, cfg):
         if k in f.variables:
             a = np.asarray(f.variables[k][...], dtype='d').ravel()
             out[k] = [int(x) if float(x).is_integer() else -1 for x in a]
+    # time bounds as presented (rows of [begin, end] in hours since 1985)
+    out['tb'] = []
+    try:
+        if 'time_bounds' in f.variables:
+            a = np.asarray(f.variables['time_bounds'][...], dtype='d')
+            if a.ndim == 2:
+                out['tb'] = [[int(x) if float(x).is_integer() else -1
+                              for x in row] for row in a]
+    except Exception as ex:
+        out['tb'] = [[-2, -2]]
     return out
 
 
 EMPTY = {'dims': {'time': -1, 'latitude': -1, 'longitude': -1}, 'vars': [],
-         'tau0': [], 'tau1': []}
+         'tau0': [], 'tau1': [], 'tb': []}
 
 
 def attempt(fn):
